@@ -116,8 +116,9 @@ def main():
     if keep and confirmed:
         d = os.path.join(VERIF, "seeded", "%s-%s" % (pid, name))
         os.makedirs(d, exist_ok=True)
-        shutil.copy(patch, os.path.join(d, "patch.diff"))
-        shutil.copy(demo, os.path.join(d, "demo.py"))
+        if os.path.abspath(patch) != os.path.abspath(os.path.join(d, "patch.diff")):
+            shutil.copy(patch, os.path.join(d, "patch.diff"))
+            shutil.copy(demo, os.path.join(d, "demo.py"))
         mpath = os.path.join(d, "meta.json")
         old = json.load(open(mpath)) if os.path.exists(mpath) else {}
         old.update(meta)
